@@ -123,10 +123,30 @@ def layers(tier):
                                  'pres': pres, 'candset': spec[0] == 'qg' and spec[1] == 2})
                 jobs.append({'filter': name, 'meas': meas, 't': t, 'gen': {'gen': 'univ', 'K': 4}, 'n_jobs': 1,
                              'pres': 2, 'candset': True})
+    # rows in descending size order; output attributes whose columns hold missing values
+    for name in ('Size', 'Prefix', 'Position', 'Overlap'):
+        for meas in (PRUNED_MEASURES + ('OVERLAP',) if name != 'Overlap' else ('OVERLAP',)):
+            for t in ((1, 2) if meas == 'OVERLAP' else (0.2, 0.5, 0.75)):
+                jobs.append({'filter': name, 'meas': meas, 't': t, 'gen': {'gen': 'univ', 'K': 5, 'order': 'rev', 'lwin': [1, 5]},
+                             'n_jobs': 1, 'pres': pres})
+                jobs.append({'filter': name, 'meas': meas, 't': t, 'gen': {'gen': 'univ', 'K': 4}, 'n_jobs': 2,
+                             'pres': pres, 'attrs_nan': True})
     Ls.append(Layer('tables', 'checks.filters:w_ftables', jobs,
                     'filter_tables on UNIV(%d) (table-level token order) x n_jobs 1..3 under the owned '
                     'scheduler, skewed/windowed universes, and filter_candset on the full cross product of '
                     'UNIV(4)' % Kt, min_nontrivial=10000, chunksize=4, bounds={'K': Kt}))
+    jobs = []
+    for name in ('Size', 'Prefix', 'Position'):
+        for q in (1, 2, 3):
+            for padding in (True, False):
+                for t in (0, 1, 2):
+                    jobs.append({'filter': name, 'q': q, 'padding': padding, 't': t, 'alpha': 'ab',
+                                 'maxlen': 4 if quick else 5, 'n_jobs': 1 + (q % 2), 'candset': t == 1, 'pres': pres,
+                                 'order': 'rev' if padding else None})
+    Ls.append(Layer('edit-tables', 'checks.filters:w_ftables_edit', jobs,
+                    'filter_tables (and filter_candset on the full cross product) under EDIT_DISTANCE on the complete '
+                    'table STR({a,b},%d) x q x padding x t 0..2 x n_jobs 1,2' % (4 if quick else 5),
+                    min_nontrivial=1000, chunksize=1))
     k, r = 3, 2
     nsc = len(tiny_scenarios(k, r))
     jobs = []
